@@ -32,7 +32,7 @@ def main():
         props = [meta["property"]] + meta.get("also_check", [])
         det = {}
         for p in props:
-            out = sh("cd %s && bin/check %s" % (V, p))
+            out = sh("cd %s && VERIF_NO_EVIDENCE=1 bin/check %s" % (V, p))
             keys = re.findall(r"^    key=(.*)$", out.stdout, re.M)
             kinds = re.findall(r"^(VIOLATION|ANCHOR-LOST): property=(\S+) rule=(\S+)", out.stdout, re.M)
             if out.returncode != 0:
